@@ -45,3 +45,48 @@ Proof.
     + intros c l Hc Hl. destruct Hc as [<-|[]]. destruct Hl as [<-|[]]. cbn. lia.
   - intros H. specialize (H eq_refl). vm_compute in H. discriminate H.
 Qed.
+
+(* ---------- what the flag is used for: the fast path of get_unit_labels_and_distances ---------- *)
+From Coq Require Import QArith.
+From DS Require Import Model.Neighbor.
+Local Close Scope Q_scope.
+Local Open Scope nat_scope.
+
+(* when row r is owned by unit r (the default provenance), the per-unit reduction is the identity: unit p's nearest row is row p
+   itself, so its label is labels[p] and its distance distances[p] -- what the fast path returns without reducing *)
+Lemma rows_of_identity n p : p < n -> rows_of (seq 0 n) p = [p].
+Proof.
+  intros Hp. unfold rows_of. rewrite seq_length.
+  assert (G : forall m s, s + m <= n -> filter (fun r => Nat.eqb (nth r (seq 0 n) 0) p) (seq s m)
+                          = if (Nat.leb s p && Nat.ltb p (s + m))%bool then [p] else []).
+  { induction m as [|m IH]; intros s Hsm.
+    - cbn [seq filter]. destruct (Nat.leb s p) eqn:E1; cbn [andb]; [|reflexivity].
+      replace (Nat.ltb p (s + 0)) with false; [reflexivity|]. symmetry. apply Nat.ltb_ge. apply Nat.leb_le in E1. lia.
+    - cbn [seq filter]. rewrite IH by lia.
+      destruct (Nat.lt_ge_cases s n) as [Hs|Hs]; [|lia].
+      + rewrite seq_nth by exact Hs. change (0 + s) with s. destruct (Nat.eqb s p) eqn:E.
+        * apply Nat.eqb_eq in E. subst s. replace (Nat.leb (S p) p) with false by (symmetry; apply Nat.leb_gt; lia). cbn [andb].
+          rewrite Nat.leb_refl. replace (Nat.ltb p (p + S m)) with true by (symmetry; apply Nat.ltb_lt; lia). reflexivity.
+        * apply Nat.eqb_neq in E. replace (S s + m) with (s + S m) by lia.
+          destruct (Nat.leb (S s) p) eqn:E1.
+          -- apply Nat.leb_le in E1. replace (Nat.leb s p) with true by (symmetry; apply Nat.leb_le; lia). reflexivity.
+          -- apply Nat.leb_gt in E1. cbn [andb]. destruct (Nat.leb s p) eqn:E2; cbn [andb]; [|reflexivity]. apply Nat.leb_le in E2. lia. }
+  rewrite G by lia. cbn [Nat.leb andb Nat.add]. replace (Nat.ltb p n) with true by (symmetry; apply Nat.ltb_lt; exact Hp). reflexivity.
+Qed.
+
+Theorem fast_path_is_reduction n (d : nat -> Q) p : p < n ->
+  unit_row (seq 0 n) d p = Some p /\ unit_dist (seq 0 n) d p = d p.
+Proof.
+  intros Hp. unfold unit_dist, unit_row. rewrite rows_of_identity by exact Hp. cbn [argmin_first]. split; reflexivity.
+Qed.
+Theorem fast_path_utility n labels dist_j Ucol p : p < n ->
+  unit_utility labels (seq 0 n) dist_j Ucol p = nthQ Ucol (encode_label labels (nth p labels 0%Z)).
+Proof. intros Hp. unfold unit_utility. rewrite (proj1 (fast_path_is_reduction n (nthQ dist_j) p Hp)). reflexivity. Qed.
+
+Theorem simple_fast_path n labels dist_j Ucol p : p < n ->
+  unit_row (seq 0 n) (nthQ dist_j) p = Some p /\ unit_dist (seq 0 n) (nthQ dist_j) p = nthQ dist_j p
+  /\ unit_utility labels (seq 0 n) dist_j Ucol p = nthQ Ucol (encode_label labels (nth p labels 0%Z)).
+Proof.
+  intros Hp. destruct (fast_path_is_reduction n (nthQ dist_j) p Hp) as [A B].
+  split; [exact A|]. split; [exact B|]. exact (fast_path_utility n labels dist_j Ucol p Hp).
+Qed.
